@@ -87,6 +87,15 @@ PROPS = {
                         'which text each primary hands to Pattern::matches (last component / whole path / link target) is read off name.rs, path.rs, lname.rs: adapter code, matched textually only'],
         'not_decided': ['validity of a bracket expression (parse_bre, onig)', "D21: backslash inside a bracket expression differs from glibc fnmatch ('[\\]]'), outside the statement's well-formed bracket expressions"],
     },
+    'C16': {
+        'level': 'proof',
+        'explanation': 'FormatStringParser (every function, bodies verbatim after R5/R9/R11) parses exactly what the reference parser fparse() of the statement prescribes (escape table incl. \\NNN, %%, blank/- flags, minimum width, the thirty directive letters, time conversions), errs exactly on the invalid formats, never panics and terminates; Printf::print writes literals verbatim and each directive value padded with blanks to the minimum width on the left by default and on the right with -, never truncated, nothing appended, stopping at a directive that fails; the value arms %d %s %n %i %m %p %y %Y of format_directive, cut out of the real match arm by arm, print the decimal field / twelve permission bits / the -print text / the -type resp. -xtype letter of the record the follow mode selects.',
+        'assumptions': ['std::fmt: Display of integers is decimal, {:>03o} is zero-padded octal, {:<w$}/{:>w$} pad a str with blanks to w chars and never truncate (R4)',
+                        'UTF-8 theory of R11 (char widths 1..4, 1 for ASCII); str::{find, get, slicing}, char::from_u32, u32::from_str_radix, str::parse::<usize> as specified in the unit',
+                        'chrono StrftimeItems validity of a time conversion character is an uninterpreted predicate (same on both sides)',
+                        'WalkEntry::{metadata, file_type, follow, path_is_symlink, depth, path} as in unit entry'],
+        'not_decided': ['%f %h %H %P (std::path component algebra; the statement\'s "%H as given" and "%H/%P recompose %p" conflict for a starting point spelled dir/)', 'time directives (chrono), %u %g (name lookup), %b %k %S %D %F %l %M', 'an unknown directive letter %X is rendered as X (the statement is silent)'],
+    },
 }
 for k in PROPS.values():
     k.setdefault('trusted', [])
